@@ -33,6 +33,10 @@ ENG_A = "simio"
 ENG_B = "simnet"
 
 CHECKS = {
+ "C32": dict(level="exploration", engine=ENG_B, design="DESIGN.md §4 C32",
+   technique="deterministic multi-node simulation at the libc socket and open() seams: the unmodified storescp per-connection bodies (run_store_sync / run_store_async, built from /repo/storescp/src by inclusion, arguments parsed by the tool's own clap definition) run as a node against a scripted C-STORE requestor node; a seeded scheduler decides interleaving, send sizes, delivery segmentation and receive sizes; file creations are observed at the interposed open() and on a per-worker sandbox file system; stored files are parsed by an independent PS3.10/PS3.5 parser and compared with the data set sent",
+   text="Seeded search over tool options (maximum PDU length, strict, promiscuous, uncompressed-only, sync/async) x association requests x 1..3 C-STORE requests with generated data sets in the negotiated transfer syntax (implicit/explicit LE, explicit BE, deflated, encapsulated RLE/JPEG fragments), Affected SOP Instance UID texts (plain, parent references, separators into an existing sub-directory, absolute paths reachable and unreachable, dot names, over-long) and fragmentations (one or many data fragments, empty fragments, an empty last fragment alone in its own PDU, several PDVs per PDU, an interleaved C-ECHO) x network schedules. Oracles: every path the node asks the OS to create and every file found afterwards lies directly inside the output directory; every complete valid request is answered with success carrying its message id and instance UID; for each acknowledged store a file directly in the output directory has a meta group naming the negotiated transfer syntax and the data set's SOP class/instance and a data set that parses to the one sent.",
+   note="The listener loop of main() is not simulated: each run hands one accepted connection to the real per-connection body. The harness links the tool sources with transfer-syntax-registry features deflate+native (the shipped default build registers fewer supported syntaxes). Command sets are sent in one fragment. No connection faults here. The store-not-answered oracle was added after the seeded change C32-empty-last-fragment-ignored had been read (see DESIGN.md)."),
  "C30": dict(level="exploration", engine=ENG_B, design="DESIGN.md §4 C30",
    technique="deterministic multi-node simulation with connection fault injection at the libc socket seam: two nodes (real requestor x real acceptor in the four sync/async pairings, or one real side against a stub that may send any PDU at any time) run seed-drawn action scripts over {send, receive, release, abort, drop, serve-until-release}; a seeded scheduler decides interleaving (release collisions), short sends, partial deliveries and, in half of the runs, connection cuts, failing sends and read timeouts; release/abort outcomes and each side's send sequence are checked against the PS3.8 state machine over the recorded wire history (events stamped with the scheduler's global sequence number), plus bounded-step liveness",
    text="release() returns Ok only if the peer's next PDU after those already consumed is A-RELEASE-RP and Err when it is anything else (release request = collision, abort, data, unknown PDU, association PDU) or the connection closed/failed; abort() that returns Ok left an A-ABORT as the side's last PDU; after release/abort/drop the side's descriptor is closed; a side sends nothing after its A-ABORT or A-RELEASE-RP, no P-DATA after its A-RELEASE-RQ and A-RELEASE-RP only after having received A-RELEASE-RQ; every node returns within the step budget once the peer answered or the connection is closed or failed.",
